@@ -90,7 +90,7 @@ def _pad_face_connections(
         # TODO: We do not need to deal with other components
         # TODO: Need to integrate that choice deeper in the loop\.
         if other_component:
-            _, da_partner = other_component.popitem()
+            (da_partner,) = other_component.values()
         else:
             # TODO: cover with a test.
             raise ValueError(
